@@ -93,7 +93,11 @@ MANIFEST = dict(
         "kernel (Props/C05e-g): the list-based executable gaussInputDeriv IS gaussD1 entry by entry (gaussInputDeriv_entry), the transposed second call is "
         "gaussD2, the backward pass reads only in-range coefficients (backward_weight_entry_congr, by uniqueness of derivatives), hence "
         "gauss_modelKernel_weight_derivative_lists: the very vector modelKernelParamGrad computes from the lists C, X1, X2 (what drv_c05 prints for mn pderiv "
-        "and what is compared with the C++) is at every weight position (gauss_modelKernel_offset_derivative_lists: and at every offset position) the derivative of sum_ij C_ij exp(-gamma |g(x1_i) - g(x2_j)|^2); non-vacuity example on concrete lists (3 points against 2). Correspondence: chains of linear / "
+        "and what is compared with the C++) is at every weight position (gauss_modelKernel_offset_derivative_lists: and at every offset position) the derivative of sum_ij C_ij exp(-gamma |g(x1_i) - g(x2_j)|^2); non-vacuity example on concrete lists (3 points against 2). GENERALISED (Props/C05h.lean): ListInputDeriv bundles what is needed of a base kernel "
+        "(curve differentiability with D1f and its transposed call as gradient, the list-based weightedInputDerivative = D1f entry by entry, D1f reads in-range "
+        "entries only); listKernel_modelKernel_weight_derivative / _offset_derivative hold for every such kernel; instances gaussLID and polyLID - the "
+        "POLYNOMIAL kernel of every degree >= 1 and offset with the executable polyInputDeriv incl. its degree-1 (linear) branch and the safe_div branch "
+        "(polyInputDeriv_entry), i.e. the base kernels of the EXACT mn pderiv correspondence (poly_modelKernel_weight_derivative_lists). Correspondence: chains of linear / "
         "rectifier layers with integer weights over exact base kernels EXACTLY (Rat) and bit for bit (Float): single, block, stateful block, feature "
         "distance, Gram over partitions, pderiv on blocks x1 != x2 of DIFFERENT sizes, gderivx, flags, setParameterVector in the middle (kernel | "
         "model parameters, frozen layers skipped); smooth chains (tanh / logistic / softmax / normalizer, any base kernel incl. Gaussian / ARD / sums) "
@@ -114,7 +118,7 @@ MANIFEST = dict(
        "The exact correspondence of the composed derivative code needs exactly representable values: Gaussian/ARD leaves inside composed kernels, non-power-of-two weights and NormalizedKernel on general points are judged by the finite-difference oracle (2e-5) and the stale-output oracle only. "
        "GaussianTaskKernel: PSD-ness of the task table (a Gaussian of RKHS distances of mean elements) is not proved (multiTask_psd takes it as hypothesis; the harness checks eigenvalues of MultiTaskKernel Gram matrices); MklKernel is exercised with two vector components (the fusion machinery is generic in the tuple); MissingFeaturesKernelExpansion is not reached (C07/C18 own the SVM models); CSvmDerivative is C07's. "
        "ModelKernel over chains: the theorems are stated on index functions for a base kernel given as a function with the KernelInputDerivs hypothesis (proved for the Gaussian and polynomial kernels, their scalings and sums); "
-       "the end-to-end list-level statement is proved for the Gaussian base kernel (weights and offsets); for polynomial / scaled / summed base kernels the statement is at function level (KernelInputDerivs instances); that Kern.inputGradA of EVERY kernel expression satisfies KernelInputDerivs is not proved (the partial-derivative theorems of Props/C05(b) + the exact ideriv correspondence + finite differences tie it); "
+       "the end-to-end list-level statement is proved for Gaussian and polynomial (incl. linear) base kernels (weights and offsets); for monomial / scaled / summed / ARD / normalised base kernels the statement is at function level (KernelInputDerivs instances for scalings and sums) or rests on the correspondence; that Kern.inputGradA of EVERY kernel expression satisfies KernelInputDerivs is not proved (the partial-derivative theorems of Props/C05(b) + the exact ideriv correspondence + finite differences tie it); "
        "rectifier / fast-sigmoid layers carry the NoKink hypothesis of the chain theorems; smooth chains are not compared bit for bit (the model's matrix products are BLAS calls: 1-ulp differences were measured) but by the toleranced oracles; "
        "exact chains are limited to two dense layers of width <= 2 with weights in {-1,0,1} (values must stay exactly representable); dropout layers and nested ConcatenatedModels inside a ModelKernel are not generated (C04 owns them). "
        "Thread sweep: a data race is detected only if it manifests in one of the 7 assemblies per op (about 250 gramt ops per quick run; no TSan build here - C20 has one); "
@@ -144,8 +148,8 @@ FINISH = dict(level="proof",
                    "+ in-place reconfigurations (setfactor / setparams / adaptall) with observations after each; non-trivial = composed kernel "
                    "(depth >= 1) or a Gram op with >= 2 batches; distinct = distinct op text")
 
-LAKE_TARGETS = ["SharkVerif.Props.C05", "SharkVerif.Props.C05b", "SharkVerif.Props.C05c", "SharkVerif.Props.C05d", "SharkVerif.Props.C05e", "SharkVerif.Props.C05f", "SharkVerif.Props.C05g", "drv_c05"]
-PROPS = ["SharkVerif.Props.C05", "SharkVerif.Props.C05b", "SharkVerif.Props.C05c", "SharkVerif.Props.C05d", "SharkVerif.Props.C05e", "SharkVerif.Props.C05f", "SharkVerif.Props.C05g"]
+LAKE_TARGETS = ["SharkVerif.Props.C05", "SharkVerif.Props.C05b", "SharkVerif.Props.C05c", "SharkVerif.Props.C05d", "SharkVerif.Props.C05e", "SharkVerif.Props.C05f", "SharkVerif.Props.C05g", "SharkVerif.Props.C05h", "drv_c05"]
+PROPS = ["SharkVerif.Props.C05", "SharkVerif.Props.C05b", "SharkVerif.Props.C05c", "SharkVerif.Props.C05d", "SharkVerif.Props.C05e", "SharkVerif.Props.C05f", "SharkVerif.Props.C05g", "SharkVerif.Props.C05h"]
 
 
 # ----------------------------------------------------------------------------- values
